@@ -64,6 +64,22 @@ def load_prop(pid):
     spec = importlib.util.spec_from_file_location('prop_' + pid, path)
     m = importlib.util.module_from_spec(spec)
     m.Unit = Unit; m.Lemma = Lemma
+    def import_units(src_pid, names=None, clause=None, tier=None):
+        """re-use units of another property (composite properties C02 / C09 / C15): same contracts, same discharge"""
+        import copy
+        sm = load_prop(src_pid)
+        out = []
+        for u in sm.UNITS:
+            if names is not None and u.name not in names: continue
+            v = copy.copy(u); v.name = '%s:%s' % (src_pid, u.name); v.src_pid = src_pid
+            if clause: v.clause = clause
+            if tier: v.tier = tier
+            out.append(v)
+        if names is not None:
+            missing = set(names) - set(u.name for u in sm.UNITS)
+            if missing: raise Undecided('must-fire: units %s not found in %s' % (sorted(missing), src_pid))
+        return out
+    m.import_units = import_units
     spec.loader.exec_module(m)
     return m
 
@@ -318,7 +334,7 @@ def value_to_c(v):
     if v is None: return '0'
     n = v.get('name')
     if n == 'struct':
-        return '{' + ', '.join(value_to_c(m.get('value')) for m in v.get('members', [])) + '}'
+        return '{' + ', '.join(value_to_c(m.get('value')) for m in v.get('members', []) if not str(m.get('name', '')).startswith('$pad')) + '}'   # CBMC lists padding as members
     if n == 'array':
         els = sorted(v.get('elements', []), key=lambda e: e.get('index', 0))
         return '{' + ', '.join(value_to_c(e.get('value')) for e in els) + '}'
@@ -560,11 +576,15 @@ def main(argv=None):
         run.cleanup()
     return rc
 
-def load_known(pid):
+def load_known(pid, units=None):
     p = os.path.join(VERIF, 'known_findings.json')
     if not os.path.exists(p): return [], []
     d = json.load(open(p))
-    return [f for f in d.get('findings', []) if f.get('property') == pid], [x for x in d.get('fixed', []) if ('property=%s ' % pid) in x]
+    pids = {pid} | set(getattr(u, 'src_pid', pid) for u in (units or []))
+    targets = set((u.inst, u.target) for u in (units or []))
+    fnd = [f for f in d.get('findings', []) if f.get('property') == pid or
+           (f.get('property') in pids and (f.get('inst'), f.get('entry')) in targets)]
+    return fnd, [x for x in d.get('fixed', []) if any(('property=%s ' % q) in x for q in pids)]
 
 def _main(a, pid, run, seed, t0):
     prop = load_prop(pid)
@@ -575,7 +595,7 @@ def _main(a, pid, run, seed, t0):
     if not units: raise Undecided('no units')
     os.makedirs(os.path.join(VERIF, 'replays'), exist_ok=True)
     os.makedirs(os.path.join(VERIF, 'evidence'), exist_ok=True)
-    findings, fixed = load_known(pid)
+    findings, fixed = load_known(pid, units)
 
     if a.replay:
         return do_replay_file(a.replay, run, prop)
@@ -587,6 +607,7 @@ def _main(a, pid, run, seed, t0):
 
     # ---- known findings: replay witnesses against the real code first
     insts = sorted(set((u.inst, tuple(u.defines)) for u in units))
+    findings = [f for f in findings if any(f.get('inst') == i for i, _ in insts)]
     kf_active = []
     kf_regions_by_inst = {}
     hdrs = {}
